@@ -89,10 +89,12 @@ func newHostTable() HostTable {
 func (h *Session) printHostTable() {
 	count := 0
 	for _, v := range h.MACTable.Table {
+		v.Row.RLock() // host fields are updated by the packet loop under the row lock
 		for _, host := range v.HostList {
 			Logger.Msg("host").Struct(host).Write()
 			count++
 		}
+		v.Row.RUnlock()
 	}
 	if count != len(h.HostTable.Table) { // validate our logic - DELETE and replace with test in future
 		panic(fmt.Sprintf("host table differ in lenght hosts=%d machosts=%d  ", len(h.HostTable.Table), count))
@@ -162,10 +164,10 @@ func (h *Session) findOrCreateHostWithLock(addr Addr) (host *Host, found bool) {
 
 func (h *Session) deleteHost(ip netip.Addr) {
 	if host := h.findIP(ip); host != nil {
+		host.MACEntry.Row.Lock() // the host list is iterated under the row lock only
 		if Logger.IsDebug() {
 			Logger.Msg("delete host").IP("ip", ip).Struct(host).Write()
 		}
-		host.MACEntry.Row.Lock() // the host list is iterated under the row lock only
 		host.MACEntry.unlink(host)
 		host.MACEntry.Row.Unlock()
 		delete(h.HostTable.Table, ip)
